@@ -28,7 +28,11 @@ Inductive rule :=
   | RNonBoolCond    (* path -> if/while/assert statement or cond expression; arg = literal choice *)
   | RVoidVariable   (* path -> expression statement e: it becomes  let z: void = e  (a variable of type void); arg = z *)
   | RDupParam       (* parameter number arg (>= 1) of the function gets the name of its first parameter *)
-  | RMainParam.     (* the function called main gets a parameter (arg: int) in front *)
+  | RMainParam      (* the function called main gets a parameter (arg: int) in front *)
+  | ROutOfScopeReturn   (* like ROutOfScope, the block ENDS IN RETURN:  if false { let z: int = 0  return <value> }  (println z)
+                           before the addressed statement; arg = z *)
+  | ROutOfScopeBreak    (* path -> while/for: its body gets  if false { let z: int = 0  break }  (println z)  in front; arg = z *)
+  | ROutOfScopeContinue. (* the same with continue *)
 
 Record position := { p_fn : nat; p_path : list nat; p_arg : N }.
 
@@ -242,6 +246,18 @@ Definition rw_unknown_fn (F : sigs) (z : ident) (e : expr) : option expr :=
 Definition rw_out_of_scope (z : ident) (s : stmt) : option stmt :=
   Some (SSeq (SIf (EBool true) (SLet false z TInt (ENum 0)) SSkip) (SSeq (SPrint true (EVar z)) s)).
 
+(* the declaring block is never entered at run time (if false), so a tool that wrongly accepts the mutant reaches the use *)
+Definition exit_block (z : ident) (last : stmt) : stmt := SIf (EBool false) (SSeq (SLet false z TInt (ENum 0)) last) SSkip.
+Definition rw_out_of_scope_return (ret : ty) (z : ident) (s : stmt) : option stmt :=
+  Some (SSeq (exit_block z (SReturn (if is_void ret then None else Some (lit_of ret)))) (SSeq (SPrint true (EVar z)) s)).
+Definition rw_out_of_scope_loop (brk : bool) (z : ident) (s : stmt) : option stmt :=
+  let pre b := SSeq (exit_block z (if brk then SBreak else SContinue)) (SSeq (SPrint true (EVar z)) b) in
+  match s with
+  | SWhile c b => Some (SWhile c (pre b))
+  | SFor x lo hi b => if N.eqb x z then None else Some (SFor x lo hi (pre b))
+  | _ => None
+  end.
+
 Definition rw_set_immutable (s : stmt) : option stmt :=
   match s with
   | SLet false x t e => Some (SSeq (SLet false x t e) (SSet x (lit_of t)))
@@ -333,6 +349,9 @@ Definition mut_body (r : rule) (pos : position) (p : program) (k : nat) (d : fn)
   | RNonBoolCond => at_stmt path (rw_cond_e arg) (rw_cond_s arg) body
   | RVoidVariable => at_stmt path no_e (rw_void_variable arg) body
   | RDupParam | RMainParam => None                 (* these change the parameter list, not the body: see mut *)
+  | ROutOfScopeReturn => if fresh_for arg p d then at_stmt path no_e (rw_out_of_scope_return (fret d) arg) body else None
+  | ROutOfScopeBreak => if fresh_for arg p d then at_stmt path no_e (rw_out_of_scope_loop true arg) body else None
+  | ROutOfScopeContinue => if fresh_for arg p d then at_stmt path no_e (rw_out_of_scope_loop false arg) body else None
   end.
 
 Fixpoint replace_nth {A} (n : nat) (v : A) (l : list A) : list A :=
